@@ -824,20 +824,34 @@ def rule_byref(ctx, sig, body, arg):
 
 
 def rule_noprint(ctx, sig, body, arg):
-    """@rule noprint: `println!(..);` statements are removed: writing to stdout is not part of the value a function computes
-    (the contract says nothing about stdout). Used for the "should never happen" branch of the canoniser, which is ALSO proved
-    unreachable by an assertion placed there."""
-    calls = _macro_calls(body, 'println')
-    if not calls:
-        raise RuleError('no println!')
-    for start, end, inner in reversed(calls):
-        e = end
-        while e < len(body) and body[e] in ' \t':
-            e += 1
-        if e < len(body) and body[e] == ';':
-            e += 1
-        ctx.note('R-noprint', body[start:e], '')
-        body = body[:start] + body[e:]
+    """@rule noprint: `println!(..);` / `eprintln!(..);` / `print!(..);` / `eprint!(..);` STATEMENTS are removed: writing to stdout / stderr is
+    not part of the value a function computes (no contract mentions the streams; the arguments of the macro are only formatted).  Applied as
+    a global optional rule, so that a diagnostic print added to a verified function does not take it out of the verifier's reach."""
+    n = 0
+    while True:
+        toks = tokenize(body)
+        ct = code_tokens(toks)
+        hit = None
+        for i, t in enumerate(ct):
+            if t.kind == 'ident' and t.text in ('println', 'eprintln', 'print', 'eprint') and i + 2 < len(ct) and ct[i + 1].text == '!' \
+                    and ct[i + 2].text in ('(', '[', '{'):
+                if i > 0 and ct[i - 1].text not in (';', '{', '}'):
+                    continue
+                close = match_close(ct, i + 2)
+                if close + 1 < len(ct) and ct[close + 1].text == ';':
+                    hit = (t.pos, ct[close + 1].end)
+                elif close + 1 < len(ct) and ct[close + 1].text == '}':
+                    hit = (t.pos, ct[close].end)
+                else:
+                    continue
+                break
+        if not hit:
+            break
+        ctx.note('R-noprint', body[hit[0]:hit[1]], '')
+        body = body[:hit[0]] + body[hit[1]:]
+        n += 1
+    if n == 0:
+        raise RuleError('no print statement')
     return sig, body
 
 
